@@ -141,8 +141,18 @@ func init() {
 	// ---- client side ----
 	R("net/http.NewRequest", func(m *Machine, a []Value) Value { return m.newRequest(a[0], a[1], a[2]) })
 	R("net/http.NewRequestWithContext", func(m *Machine, a []Value) Value { return m.newRequest(a[1], a[2], a[3]) })
-	R("(*net/http.Request).WithContext", func(m *Machine, a []Value) Value { return a[0] })
-	R("(*net/http.Request).Context", func(m *Machine, a []Value) Value { return m.opaqueIface("context", "emptyCtx", "background") })
+	// WithContext: the context is stored in the request (the model does not copy the request)
+	R("(*net/http.Request).WithContext", func(m *Machine, a []Value) Value {
+		m.touch(a[0].(Ptr))
+		m.setField(a[0].(Ptr), m.namedType("net/http", "Request"), "ctx", a[1])
+		return a[0]
+	})
+	R("(*net/http.Request).Context", func(m *Machine, a []Value) Value {
+		if c, ok := m.getField(a[0].(Ptr), m.namedType("net/http", "Request"), "ctx").(Iface); ok && c.T != nil {
+			return c
+		}
+		return m.opaqueIface("context", "emptyCtx", "background")
+	})
 	hdrKey := func(m *Machine, v Value) string {
 		return textproto.CanonicalMIMEHeaderKey(m.concStr(v, "header key"))
 	}
@@ -196,6 +206,15 @@ func init() {
 		f := m.harnessFunc("verifDo")
 		if in == nil {
 			m.fail("unsupported", "http.Client.Do in deferred position")
+		}
+		// as net/http's transport: a request whose context is already cancelled is not sent
+		if c, ok := m.getField(args[1].(Ptr), m.namedType("net/http", "Request"), "ctx").(Iface); ok && c.T != nil {
+			if p, isPtr := c.V.(Ptr); isPtr && p != nil {
+				if o, isOp := (*p).(*Opaque); isOp && o.Kind == "cancelCtx" && o.X.(*Chan).Closed {
+					m.setResult(fr, in, Tuple{Ptr(nil), m.errorValue("context canceled")})
+					return
+				}
+			}
 		}
 		m.pushFrame(g, f, nil, []Value{args[1]}, in)
 	}
